@@ -15,6 +15,18 @@ The other five potentials (HK cylinder / sphere, Rege-Yang slit / cylinder / sph
       tree the two residuals differ by < 1e-7, so the excess is the part of the residual that does not come from the solver);
   (c) if (a) fails: failing-input search — pressures computed from the model potential for the widths of largest disagreement are
       given to the library, the widths it returns must solve the model equation.
+
+The property is PER POINT ("each reported width solves the equation at the corresponding relative pressure"): the points are handed to
+the raw functions in any order (increasing, a noisy reading that steps back, shuffled, reversed, a repeated point, one or two points)
+and, besides the certificates above on every reported width,
+  (d) per-point oracle on the real code: the width reported for point j of a call must be the width reported when the same point stands
+      FIRST in a call (the first pass of any loop has no history; Cheng-Yang: together with the point of largest loading, so that the
+      coverage is the same), and the same points in another order / a sub-sequence must get the same widths (measured difference on the
+      unchanged tree: exactly 0);
+  (e) correspondence of the solver loop: Model/Micro.lean `solveHK` / `solveHKCY` (Props/C17/Solver.lean: entry j = minimiser at point j,
+      invariance under re-ordering, sub-sequences, repeated pressures, where the loop stops) run by Drv/Char.lean (`hksolve`, `hksolvecy`)
+      with the measured first-position widths as the minimiser, against the widths the library's loop returned for the whole sequence;
+  (f) widths non-decreasing as a function of pressure: checked on the points sorted by pressure, whatever their order in the call.
 """
 import math
 from fractions import Fraction
@@ -52,6 +64,28 @@ CERT_TOL = 2e-3          # tolerance of the certificate (solver accuracy, measur
 EXCESS_TOL = 2e-5        # solver-independent part: residual on the model potential minus residual on the library's own potential (unchanged tree: <= 1e-9 |phi| < 1e-7)
 CORR_TOL = 1e-9          # model (exact) vs closure (floating point), relative; measured <= 4e-12 (<= 6e-11 Rege-Yang sphere at s = 0.03)
 SPHERE_MIN_S = 0.03      # spheres: (l - d_eff)/l below this is ill-conditioned in floating point (t_term cancellation ~ 1e-16/s^3)
+
+
+PER_POINT_CLAUSE = "reported width does not solve the potential equation at its pressure although the same point in another call is solved (the result depends on the other points of the call or their order)"
+PER_POINT_TOL = 1e-9     # nm; every point is minimised with the same bounds and potential: measured difference on the unchanged tree is exactly 0
+ORDER_MODES = ["increasing", "increasing", "increasing", "dip", "dip", "permuted", "permuted", "reversed", "duplicate"]
+
+
+def point_order(rng, mode, n):
+    """indices in which n points (generated with increasing pressure and loading) are handed to the library"""
+    idx = list(range(n))
+    if mode == "dip" and n >= 2:                      # one or two readings step back (noisy transducer): neighbours or next-but-one swapped
+        for _ in range(rng.choice([1, 1, 2])):
+            k = rng.randrange(n - 1)
+            j = min(n - 1, k + rng.choice([1, 1, 2]))
+            idx[k], idx[j] = idx[j], idx[k]
+    elif mode == "permuted":
+        rng.shuffle(idx)
+    elif mode == "reversed":
+        idx.reverse()
+    elif mode == "duplicate" and n >= 1:              # one point (pressure and loading) appears twice, anywhere
+        idx.insert(rng.randrange(n + 1), rng.randrange(n))
+    return idx
 
 
 def model_params(T, ads, mat):
@@ -167,6 +201,96 @@ def run(ck):
             return name, dict(_ADSORBENT_MODELS[name])
         return "user", {"molecular_diameter": rng.uniform(0.25, 0.36), "polarizability": logu(rng, 0.8e-3, 3e-3), "magnetic_susceptibility": logu(rng, 1e-8, 2e-7), "surface_density": logu(rng, 1e19, 5e19)}
 
+    def solve_again(fn, T, geo, ads, mat, use_cy, pts):
+        """internal widths (the solver's return value) the library reports for the points `pts` = [(p, n), ...] in a call of their own"""
+        saved = list(rec)
+        rec.clear()
+        try:
+            fn(np.array([p for p, _ in pts]), np.array([n for _, n in pts]), T, geo, ads, mat, use_cy=use_cy)
+            return rec[0]["L"] if len(rec) == 1 else None
+        except Exception:  # noqa  (refusals are reported where the whole sequence is analysed)
+            return None
+        finally:
+            rec[:] = saved
+
+    def per_point(fn, r, ps, load, T, geo, ads, mat, use_cy, sig, detail, tag):
+        """(d) + (e): the widths `r["L"]` the library reported for the sequence (ps, load) against the same points solved first in a call /
+        in another order; queues the request for the model loop when every reported point has been measured on its own"""
+        L, m, n = r["L"], len(r["L"]), len(ps)
+        if m == 0 or m > n:
+            ck.broken.append({"step": "per-point oracle", "what": f"solver returned {m} widths for {n} points"})
+            return
+        jmax = max(range(n), key=lambda k: load[k])
+        dips = [j for j in range(1, m) if ps[j] < max(ps[:j])]            # points below an earlier pressure
+        chosen_j = list(range(m)) if m <= 8 else sorted(set(rng.sample(dips, min(3, len(dips))) + rng.sample(range(m), 3)))
+        table, found = {}, []
+
+        def resid(j, l):
+            """relative residual of the potential equation of point j (closure of this analysis, Cheng-Yang term of the point) at pore size l"""
+            corr = 0.0
+            if r["cy"]:
+                c = float(r["n"][j]) / (float(max(r["n"])) * 1.01)
+                corr = 1 + 1 / c * math.log(1 - c)
+            try:
+                e = abs(math.exp(float(r["fun"](l)) - corr) - ps[j]) / ps[j]
+            except (OverflowError, ValueError, ZeroDivisionError):
+                return math.inf
+            return e if e == e else math.inf
+
+        def compare(j, other, how, call, k):
+            d = abs(other - L[j])
+            if d <= PER_POINT_TOL:
+                found.append((0, d, j, other, how, call, k, None, None))
+                return
+            # the two calls disagree about the point: a violation of the PROPERTY when one of the two widths does not solve the equation of
+            # the point while the other does (the equation is solvable, the library found the root itself); two different roots are not
+            e_this, e_other = resid(j, L[j]), resid(j, other)
+            viol = min(e_this, e_other) <= CERT_TOL < max(e_this, e_other)
+            found.append((2 if viol else 1, d, j, other, how, call, k, e_this, e_other))
+
+        for j in chosen_j:
+            pts = [(ps[j], load[j])] + ([(ps[jmax], load[jmax])] if use_cy and j != jmax else [])
+            L0 = solve_again(fn, T, geo, ads, mat, use_cy, pts)
+            ck.count(("per-point", tag, sig["model"], geo, j, ps[j]), bucket=f"per point:{tag}:point first in a call of its own")
+            if not L0:
+                continue
+            table[j] = L0[0]
+            compare(j, L0[0], "the point first in a call of its own", pts, 0)
+        # the same points (a sub-sequence of at most 8) in another order
+        if n >= 2:
+            sub = rng.sample(range(n), min(n, 8))
+            if use_cy and jmax not in sub:
+                sub[0] = jmax
+            rng.shuffle(sub)
+            pts = [(ps[j], load[j]) for j in sub]
+            L2 = solve_again(fn, T, geo, ads, mat, use_cy, pts)
+            ck.count(("reorder", tag, sig["model"], geo, tuple(sub)), bucket=f"per point:{tag}:sub-sequence in another order")
+            for k, j in enumerate(sub[:len(L2 or [])]):
+                if j < m:
+                    compare(j, L2[k], "a sub-sequence of the points in another order", pts, k)
+        if found:
+            level, d, j, other, how, call, k, e_this, e_other = max(found, key=lambda t: (t[0], t[1]))
+            note(f"per point (abs nm):{sig['model']}", d)
+            info = {"index": j, "pressure_at": ps[j], "width_in_this_call": L[j], "width_in_the_other_call": other, "the_other_call": how,
+                    "pressure_of_the_other_call": [x for x, _ in call], "loading_of_the_other_call": [x for _, x in call], "index_in_the_other_call": k,
+                    "relative_residual_in_this_call": e_this, "relative_residual_in_the_other_call": e_other,
+                    "points_below_an_earlier_pressure": dips[:10], "n_differ": sum(1 for t in found if t[0] > 0)}
+            if level == 2:
+                ck.fail_case({**sig, "clause": PER_POINT_CLAUSE, "entry": tag, "failing_call": "this call" if e_this > e_other else "the other call"}, {**detail, **info})
+            elif level == 1 and not any(b_.get("step") == "per-point oracle (solver loop)" for b_ in ck.broken):
+                ck.broken.append({"step": "per-point oracle (solver loop)", "what": {"finding": "the width reported for a point changes with the other points of the call (Model/Micro.lean solveLoop: "
+                                  "it must not); both widths solve the equation of the point within the certificate tolerance", **sig, **info}})
+        if len(table) == m and m <= 8:
+            keys = list(table)
+            if use_cy:
+                nmax = max(Fraction(float(x)) for x in r["n"])
+                covq = [Fraction(float(x)) / (nmax * Fraction(101, 100)) for x in r["n"]]
+                kc = "[" + ";".join(f"{covq[j].numerator}/{covq[j].denominator}" for j in keys) + "]"
+                lines.append(f"hksolvecy {q(r['geo'])} {qlist(ps)} {qlist(r['n'])} {qlist([ps[j] for j in keys])} {kc} {qlist([table[j] for j in keys])}")
+            else:
+                lines.append(f"hksolve {q(r['geo'])} {qlist(ps)} {qlist([ps[j] for j in keys])} {qlist([table[j] for j in keys])}")
+            plan.append(("hksolve", (L, sig, detail)))
+
     try:
         for i in range(N):
             ads, (mname, mat) = adsorbate_set(), material_set()
@@ -175,7 +299,7 @@ def run(ck):
             geo = rng.choice(["slit", "slit", "cylinder", "sphere"])
             d_eff = (ads["molecular_diameter"] + mat["molecular_diameter"]) / 2
             sig = {"model": model, "family": model[:2], "geometry": geo}
-            npts = rng.choice([4, 8, 15, 30])
+            npts = rng.choice([1, 2, 4, 4, 8, 8, 15, 15, 30, 30])
             from_widths = model == "HK" and geo == "slit" and rng.random() < 0.7
             if from_widths:
                 # published slit equation -> pressures for chosen widths (internuclear distance between 2 d_eff and ~3 nm)
@@ -183,14 +307,22 @@ def run(ck):
                 ps = [math.exp(hk_slit_published(l, T, ads, mat)) for l in ls]
                 keep = [j for j, p in enumerate(ps) if 1e-12 < p < 0.99 and (j == 0 or p > ps[j - 1] * (1 + 1e-9))]
                 ls, ps = [ls[j] for j in keep], [ps[j] for j in keep]
-                if len(ps) < 3:
+                if len(ps) < 1:
                     continue
             else:
                 ps = sorted({logu(rng, 1e-7, 0.2) for _ in range(npts)})
             inc = [rng.uniform(0.05, 1) for _ in ps]
-            load = list(np.cumsum(inc))
+            load = [float(x) for x in np.cumsum(inc)]
+            # the order in which the points are handed over (loading stays an increasing function of pressure)
+            order_mode = rng.choice(ORDER_MODES)
+            idx = point_order(rng, order_mode, len(ps))
+            ps, load = [ps[k] for k in idx], [load[k] for k in idx]
+            if from_widths:
+                ls = [ls[k] for k in idx]
+            sig["order"] = order_mode
             ck.count(("hk", model, geo, mname, len(ps), i), bucket=f"certificate:{model}:{geo}" + (":from published widths" if from_widths else ""),
                      sample={"model": model, "geometry": geo, "material": mname, "T": T, "points": len(ps)} if i % 30 == 0 else None)
+            ck.count(("order", order_mode, min(len(ps), 3), model, geo), bucket=f"point order:{order_mode}" + (":one or two points" if len(ps) < 3 else ""))
             fn = pm.psd_horvath_kawazoe if model.startswith("HK") else pm.psd_horvath_kawazoe_ry
             rec.clear()
             try:
@@ -253,6 +385,8 @@ def run(ck):
             if bad:
                 ck.fail_case({**sig, "clause": "reported width does not solve the potential equation", "at_search_bound": bool(all(at_bound[j] for j in bad))},
                              {**detail, "index": bad[0], "width_found": L[bad[0]], "relative_residual": resid[bad[0]], "n_bad": len(bad)})
+            # (d), (e) the result for a point does not depend on the other points of the call
+            per_point(fn, r, ps, load, T, geo, ads, mat, model.endswith("CY"), sig, detail, "raw function")
             # (a') the five potentials of Model/HKPot.lean: correspondence points and the certificate on the model potential
             kind = KIND.get((model[:2], geo))
             if kind is not None:
@@ -299,15 +433,18 @@ def run(ck):
             if cov is not None:
                 c = float(cov[len(cov) // 2])
                 cases.append(("hk_sf_corr", {"c_point": c}, 1 + 1 / c * math.log(1 - c)))
-            # (c) widths non-decreasing in pressure
-            if any(b < a - 1e-4 for a, b in zip(L, L[1:])):
-                j = next(k for k in range(len(L) - 1) if L[k + 1] < L[k] - 1e-4)
-                ck.fail_case({**sig, "clause": "pore widths decrease with pressure", "cheng_yang": bool(r["cy"])}, {**detail, "index": j, "widths": L[max(0, j - 1):j + 3]})
+            # (c) widths non-decreasing in pressure: as a function of pressure, whatever the order of the points in the call
+            by_p = sorted(range(len(L)), key=lambda k: ps[k])
+            Ls = [L[k] for k in by_p]
+            if any(b < a - 1e-4 for a, b in zip(Ls, Ls[1:])):
+                j = next(k for k in range(len(Ls) - 1) if Ls[k + 1] < Ls[k] - 1e-4)
+                ck.fail_case({**sig, "clause": "pore widths decrease with pressure", "cheng_yang": bool(r["cy"])},
+                             {**detail, "index": by_p[j], "next_higher_pressure_at_index": by_p[j + 1], "pressures_sorted": [ps[k] for k in by_p[max(0, j - 1):j + 3]], "widths": Ls[max(0, j - 1):j + 3]})
             # (d) bookkeeping: cumulative volume is the adsorbed amount as liquid volume; distribution is the finite-difference derivative
             m = len(L)
             vliq = [x * ads["adsorbate_molar_mass"] / ads["liquid_density"] / 1000 for x in load]
             rep = [(l - mat["molecular_diameter"]) if geo == "slit" else (2 * l - mat["molecular_diameter"]) for l in L]
-            cases.append(("hk_volume_adsorbed", {"loading": load[1], "adsorbate_molar_mass": ads["adsorbate_molar_mass"], "liquid_density": ads["liquid_density"]}, vliq[1]))
+            cases.append(("hk_volume_adsorbed", {"loading": load[-1], "adsorbate_molar_mass": ads["adsorbate_molar_mass"], "liquid_density": ads["liquid_density"]}, vliq[-1]))
             ok_len = len(w_avg) == len(dist) == len(cum) == m - 1
             if not ok_len:
                 ck.fail_case({**sig, "clause": "result arrays do not have one entry per interval"}, {**detail, "lengths": [len(w_avg), len(dist), len(cum)], "widths_found": m})
@@ -335,17 +472,26 @@ def run(ck):
         # ------------------------------------------------------------------ isotherm entry point: limits + same numbers as the raw call
         for i in range(max(8, N // 4)):
             npts = rng.choice([8, 15, 30])
-            ps = sorted({logu(rng, 1e-7, 0.6) for _ in range(npts)})
-            load = list(np.cumsum([rng.uniform(0.05, 1) for _ in ps]))
+            # a third of the isotherms: an adsorption branch whose pressures are not increasing (readings that step back, points in any order;
+            # all points marked as adsorption, no pressure limits: the selection by limits presupposes increasing pressures)
+            order_mode = "increasing" if rng.random() < 0.65 else rng.choice(["dip", "dip", "permuted", "duplicate"])
+            ps = sorted({logu(rng, 1e-7, 0.6 if order_mode == "increasing" else 0.2) for _ in range(npts)})
+            load = [float(x) for x in np.cumsum([rng.uniform(0.05, 1) for _ in ps])]
+            idx = point_order(rng, order_mode, len(ps))
+            ps, load = [ps[k] for k in idx], [load[k] for k in idx]
             iso = pg.PointIsotherm(pressure=ps, loading=load, material="pgv-synth", adsorbate="N2", temperature=77.355, pressure_mode="relative", pressure_unit=None,
-                                   loading_basis="molar", loading_unit="mmol", material_basis="mass", material_unit="g", temperature_unit="K")
-            lim = None if rng.random() < 0.4 else (rng.choice([None, 0, logu(rng, 1e-7, 1e-3)]), rng.choice([None, rng.uniform(0.01, 0.6), rng.choice(ps)]))
+                                   loading_basis="molar", loading_unit="mmol", material_basis="mass", material_unit="g", temperature_unit="K",
+                                   **({} if order_mode == "increasing" else {"branch": "ads"}))
+            if order_mode != "increasing":
+                lim = (rng.choice([None, 0]), None)
+            else:
+                lim = None if rng.random() < 0.4 else (rng.choice([None, 0, logu(rng, 1e-7, 1e-3)]), rng.choice([None, rng.uniform(0.01, 0.6), rng.choice(ps)]))
             model, geo = rng.choice(["HK", "HK-CY", "RY", "RY-CY"]), rng.choice(["slit", "cylinder", "sphere"])
             ads_model = adsorbate_set()
             lo, hi = (None, 0.2) if lim is None else lim
             strict = [j for j, p in enumerate(ps) if (not lo or p > lo) and (not hi or p < hi)]
             loose = [j for j, p in enumerate(ps) if (not lo or p >= lo) and (not hi or p <= hi)]
-            ck.count(("entry", model, geo, str(lim), i), bucket="entry point:psd_microporous")
+            ck.count(("entry", model, geo, str(lim), i), bucket="entry point:psd_microporous" + ("" if order_mode == "increasing" else ":pressures not increasing"))
             rec.clear()
             try:
                 res = pgc.psd_microporous(iso, psd_model=model, pore_geometry=geo, branch="ads", material_model="Carbon(HK)", adsorbate_model=ads_model, p_limits=lim)
@@ -361,6 +507,10 @@ def run(ck):
                     ck.fail_case({"model": model, "geometry": geo, "clause": "entry point does not solve the equation of the requested model"},
                                  {"pressure": ps, "limits": lim, "cheng_yang_applied": None if entry_rec is None else entry_rec["cy"],
                                   "entry_widths": [float(x) for x in res["pore_widths"][:5]], "model_widths": [float(x) for x in raw[0][:5]]})
+                if entry_rec is not None and np.allclose(entry_rec["p"], np.array(ps)[a:b + 1], rtol=1e-12):
+                    esig = {"model": model, "family": model[:2], "geometry": geo, "order": order_mode}
+                    per_point(raw_fn, entry_rec, ps[a:b + 1], load[a:b + 1], 77.355, geo, ads_model, dict(_ADSORBENT_MODELS["Carbon(HK)"]), model.endswith("CY"), esig,
+                              {"T": 77.355, "adsorbate": ads_model, "material_name": "Carbon(HK)", "pressure": ps, "loading": load, "p_limits": lim, "branch": "ads"}, "psd_microporous")
                 lines.append(f"hkdispatch {model}")
                 plan.append(("dispatch", (model.startswith("RY"), None if entry_rec is None else entry_rec["cy"])))
                 rec[:] = [entry_rec] if entry_rec else []
@@ -414,6 +564,10 @@ def run(ck):
                 ok = t[0] == "ok" and t[1] == str(data[0]).lower() and (data[1] is None or t[2] == str(data[1]).lower())
             elif what == "hkwidth":
                 ok = t[0] == "ok" and abs(float(parse_qlist("[" + t[1] + "]")[0]) - data) <= 1e-12
+            elif what == "hksolve":              # the model loop with the measured single-point widths = the library's loop on the whole sequence
+                got = [float(x) for x in parse_qlist(t[1])] if t[0] == "ok" and len(t) == 2 else None
+                ok = got is not None and len(got) == len(data[0]) and all(abs(x - y) <= PER_POINT_TOL for x, y in zip(got, data[0]))
+                data = {"library_widths": data[0], "model": data[1]["model"], "geometry": data[1]["geometry"], "order": data[1].get("order")}
             else:
                 arrs = [parse_qlist(x) for x in t[1:4]] if t[0] == "ok" else None
                 ok = arrs is not None and all(len(a) == len(b) and all(abs(float(x) - float(y)) <= 1e-9 * max(1e-300, abs(float(y)), max(abs(float(z)) for z in b)) for x, y in zip(a, b)) for a, b in zip(arrs, data))
@@ -547,8 +701,11 @@ def run(ck):
     ck.cov["correspondence_disagreements"] = n_dis + n_pot_dis
     ck.cov["worst"] = {k: float(f"{v:.3g}") for k, v in sorted(worst.items())}
     ck.cov["rule"] = ("adsorbate parameter sets over physical ranges, three built-in adsorbent sets and user dictionaries, 70-300 K, four models x three geometries, 4-30 pressures (log-uniform 1e-7..0.2 or computed "
-                      "from the published slit equation for widths between the geometric minimum and 3 nm), increasing loadings; isotherm entry point with any limits")
+                      "from the published slit equation for widths between the geometric minimum and 3 nm), 1, 2, 4-30 points handed over in increasing order, with readings that step back, shuffled, reversed or with a "
+                      "repeated point (loading an increasing function of pressure); isotherm entry point with any limits, and adsorption branches whose pressures are not increasing (no limits)")
     ck.assumptions += ["scipy.optimize.minimize_scalar (bounded Brent) is numerical: each result is checked by certificate against the recorded potential closure",
+                       "solver loop: Model/Micro.lean solveHK / solveHKCY run with the widths the library reports for each point standing first in a call of its own "
+                       "(the minimisation as a function of the point is measured, not modelled)",
                        "cylinder / sphere / Rege-Yang potentials: Model/HKPot.lean evaluated exactly at Q against the recorded closures (rel. 1e-9) and used for the certificate; "
                        "pi / asin(d_ads / width) (Rege-Yang cylinder populations) is computed in this harness and enters the model as input; spheres closer than 3 % to the geometric bound "
                        "and Rege-Yang cylinders above ~4 nm (cost of exact series) are covered by the closure certificate only",
